@@ -2,6 +2,7 @@ package main
 
 import (
 	"fmt"
+	"os"
 	"go/types"
 	"strings"
 
@@ -197,6 +198,9 @@ func registerMisc(e *Engine) {
 	_ = fmt.Sprintf
 	registerLevelDB(e)
 	registerCodec(e)
+	if os.Getenv("GOSYM_NOSUMMARIES") == "" {
+		registerIRC(e)
+	}
 }
 
 type ldbBatch struct {
